@@ -38,7 +38,7 @@ PROPS = {
                 theorems=[]),
     "C10": dict(module="ERP.Properties.C10", suites=["plugin"], oracle="c10", theorems=[]),
     "C11": dict(module="ERP.Properties.C11", suites=["plugin"], oracle="plugin", theorems=[]),
-    "C12": dict(module="ERP.Properties.C12", suites=["plugin", "region"], oracle="plugin", theorems=[]),
+    "C12": dict(module="ERP.Properties.C12", suites=["plugin", "region"], oracle="c12", theorems=[]),
     "C13": dict(module="ERP.Properties.C13", suites=["plugin"], oracle="plugin", theorems=[]),
     "C14": dict(module="ERP.Properties.C14", suites=["filter", "plugin"], oracle="filter", theorems=[]),
     "C15": dict(module="ERP.Properties.C15", suites=["plugin"], oracle="plugin", theorems=[]),
